@@ -1378,6 +1378,17 @@ class TestCaseInfo:
     error: bool = None
 
 
+# Characters which may not occur in an XML 1.0 document, not even as
+# character references (control characters, lone surrogates, U+FFFE/FFFF).
+_invalid_xml_chars = re.compile(
+    '[^\t\n\r\x20-\ud7ff\ue000-\ufffd\U00010000-\U0010ffff]')
+
+
+def xml_safe(text):
+    """Replace the characters XML cannot represent by U+FFFD."""
+    return _invalid_xml_chars.sub('\ufffd', text)
+
+
 def get_test_class_name(test):
     """Compute the test class name from the test object."""
     return f'{test.__module__}.{test.__class__.__name__}'
@@ -1553,7 +1564,7 @@ class XMLOutputFormattingWrapper:
             testSuiteNode.set('errors', str(suite.errors))
             testSuiteNode.set('failures', str(suite.failures))
             testSuiteNode.set('hostname', hostname)
-            testSuiteNode.set('name', name)
+            testSuiteNode.set('name', xml_safe(name))
             testSuiteNode.set('time', str(suite.time))
             testSuiteNode.set('timestamp', timestamp)
 
@@ -1571,8 +1582,8 @@ class XMLOutputFormattingWrapper:
                 testCaseNode = ElementTree.Element('testcase')
                 testSuiteNode.append(testCaseNode)
 
-                testCaseNode.set('classname', testCase.testClassName)
-                testCaseNode.set('name', testCase.testName)
+                testCaseNode.set('classname', xml_safe(testCase.testClassName))
+                testCaseNode.set('name', xml_safe(testCase.testName))
                 testCaseNode.set('time', str(testCase.time))
 
                 if testCase.error:
@@ -1586,10 +1597,11 @@ class XMLOutputFormattingWrapper:
                     finally:  # Avoids a memory leak
                         del tb
 
-                    errorNode.set('message', errorMessage.split('\n')[0])
-                    errorNode.set('type', str(excType))
+                    errorNode.set(
+                        'message', xml_safe(errorMessage.split('\n')[0]))
+                    errorNode.set('type', xml_safe(str(excType)))
                     text = (errorMessage + '\n\n' + stackTrace)
-                    errorNode.text = text
+                    errorNode.text = xml_safe(text)
 
                 if testCase.failure:
 
@@ -1607,10 +1619,11 @@ class XMLOutputFormattingWrapper:
                     finally:  # Avoids a memory leak
                         del tb
 
-                    failureNode.set('message', errorMessage.split('\n')[0])
-                    failureNode.set('type', str(excType))
+                    failureNode.set(
+                        'message', xml_safe(errorMessage.split('\n')[0]))
+                    failureNode.set('type', xml_safe(str(excType)))
                     text = f'{errorMessage}\n\n{stackTrace}'
-                    failureNode.text = text
+                    failureNode.text = xml_safe(text)
 
             # We don't have a good way to capture these yet, so they are empty:
             systemOutNode = ElementTree.Element('system-out')
